@@ -310,12 +310,22 @@ func checkC20(c c20Case) verdict {
 				return bad(true, labels, "call %d: %s(%v) = %v; native library %q, RFC value %q (digits %d, hash %d)", i, call.Fn, args, got, native, want, d, a)
 			}
 		case "validateHOTP", "validateTOTP":
-			_, want := windowSet(call.Key, centre, uint64(call.Skew), d, a)[code]
+			nearZero := call.Fn == "validateTOTP" && centre < uint64(call.Skew)
+			want := false
+			if !nearZero {
+				_, want = windowSet(call.Key, centre, uint64(call.Skew), d, a)[code]
+			}
 			var native bool
 			if call.Fn == "validateHOTP" {
 				native, _ = otp.ValidateHOTP(secret, code, call.N, par)
 			} else {
 				native, _ = otp.ValidateTOTP(secret, code, time.Unix(int64(call.N), 0), par)
+			}
+			if nearZero {
+				// the window reaches below step 0: outside the reference's domain (C04), but the binding
+				// must still give the native library's verdict
+				labels = append(labels, "window-below-step-0")
+				want = native
 			}
 			if got.Type != "boolean" || got.Value != want || native != want {
 				return bad(true, labels, "call %d: %s(%v) = %v; native library %v, reference window membership %v (centre %d, distance %d, skew %d)", i, call.Fn, args, got, native, want, centre, call.Dist, call.Skew)
@@ -374,7 +384,10 @@ func drawC20Call(t *rapid.T) c20Call {
 		c.Mut = rapid.SampledFrom([]int{0, 0, 0, 1, 2, 3}).Draw(t, "mut")
 		centre := c.N
 		if c.Fn == "validateTOTP" {
-			if c.N/uint64(c.Period) < uint64(c.Skew)+3 { // the whole window lies at or after step 0
+			if rapid.IntRange(0, 3).Draw(t, "nearZero") == 0 && c.Skew > 0 {
+				// instants whose window reaches below step 0 (distances then wrap modulo 2^64)
+				c.N = rapid.Uint64Range(0, uint64(c.Period)*uint64(c.Skew)).Draw(t, "tNearZero")
+			} else if c.N/uint64(c.Period) < uint64(c.Skew)+3 { // the whole window lies at or after step 0
 				c.N += uint64(c.Period) * (uint64(c.Skew) + 3)
 			}
 			if c.N > 1<<53 {
@@ -385,11 +398,8 @@ func drawC20Call(t *rapid.T) c20Call {
 			c.N = 1<<53 - 20
 			centre = c.N
 		}
-		if c.Dist < 0 && centre < uint64(-c.Dist) {
+		if c.Dist < 0 && centre < uint64(-c.Dist) && c.Fn == "validateHOTP" {
 			c.Dist = -c.Dist
-		}
-		if c.Fn == "validateHOTP" && c.N < uint64(c.Skew) {
-			// c < s is in HOTP's domain (window clipped at 0)
 		}
 	}
 	if c.Fn == "generateOTPURL" {
